@@ -66,7 +66,7 @@ var c16Variants = []string{
 	"domain-altered-after-signing", "domain-other-signed",
 	"key-rsa", "key-ed25519", "key-p384",
 	"registered-rsa-garbage-signature", "registered-rsa-own-signature", "registered-ed25519-garbage-signature", "registered-ed25519-own-signature",
-	"truncated", "length-prefix-short", "length-prefix-long", "not-asn1", "trailing-bytes", "not-asn1-large",
+	"truncated", "length-prefix-short", "length-prefix-long", "not-asn1", "trailing-bytes", "not-asn1-large", "domain-t61-invalid-utf8",
 }
 
 func genC16(seed uint64, index int, tier string) C16Cfg {
@@ -322,6 +322,20 @@ func runC16(t *testing.T, spec RunSpec) *RunResult {
 				raw = handshakeFrame(prng.Derive(spec.Seed, "noise").Bytes(100 + a.Cut))
 			case "trailing-bytes":
 				raw = handshakeFrame(append(h.Bytes(), 1, 2, 3))
+			case "domain-t61-invalid-utf8":
+				// a handshake that parses but cannot be re-encoded: the domain as a T61String (which ASN.1 decoders
+				// accept without looking at the bytes) that is not valid UTF-8
+				hh := h
+				hh.Domain = "xy"
+				b := hh.Bytes()
+				off := 2
+				if b[1]&0x80 != 0 {
+					off = 2 + int(b[1]&0x7f)
+				}
+				if off+3 < len(b) && b[off+1] == 2 {
+					b[off], b[off+2], b[off+3] = 0x14, 0xff, 0xfe
+				}
+				raw = handshakeFrame(b)
 			case "not-asn1-large":
 				raw = handshakeFrame(bytes.Repeat([]byte{'Z'}, 4096+(a.Cut*137)%56000))
 			}
